@@ -379,6 +379,9 @@ def main():
     ap.add_argument("--oneshot", action="store_true")
     ap.add_argument("--timeout", type=float, default=60.0)
     a = ap.parse_args()
+    import warnings
+
+    warnings.filterwarnings("ignore", category=SyntaxWarning)
     out = os.fdopen(os.dup(1), "w")
     # anything the library prints must not corrupt the protocol
     os.dup2(2, 1)
